@@ -424,8 +424,8 @@ def _validate_return_to(url: str, allowed_origins: frozenset[str] = frozenset())
     """Validate an external return-to URL against an origin allowlist.
 
     Returns the URL if it matches an allowed origin or is localhost,
-    otherwise returns empty string.  Only the scheme and host (ignoring
-    port for localhost) are checked — any path is permitted.
+    otherwise returns empty string.  The scheme, host and port are checked
+    (any port is accepted for localhost) — any path is permitted.
     """
     if not url or len(url) > 2048:
         return ""
@@ -440,19 +440,24 @@ def _validate_return_to(url: str, allowed_origins: frozenset[str] = frozenset())
         return ""
     if not parsed.netloc:
         return ""
+    try:
+        port = parsed.port
+    except ValueError:
+        # Non-numeric or out-of-range port: not a URL a browser will follow.
+        return ""
     # localhost with any port is always allowed
     hostname = parsed.hostname or ""
     if _is_localhost(hostname) and parsed.scheme == "http":
         return url
-    # Check against allowlist (scheme + host, ignoring path)
-    origin = f"{parsed.scheme}://{parsed.hostname}"
-    if origin in allowed_origins:
-        return url
-    # Also try with explicit port
-    if parsed.port:
-        origin_with_port = f"{parsed.scheme}://{parsed.hostname}:{parsed.port}"
-        if origin_with_port in allowed_origins:
+    # Check against allowlist.  An origin is scheme + host + port: an entry
+    # without a port names the scheme's default port, nothing else.
+    default_port = 443 if parsed.scheme == "https" else 80
+    origin = f"{parsed.scheme}://{hostname}"
+    if port is None or port == default_port:
+        if origin in allowed_origins or f"{origin}:{default_port}" in allowed_origins:
             return url
+    elif f"{origin}:{port}" in allowed_origins:
+        return url
     return ""
 
 
